@@ -5,12 +5,13 @@ set -e
 REPO="${VERIF_REPO:-/repo}"
 SRC="$REPO/python/ext/tak.cpp"
 H=$(sha256sum "$SRC" | cut -c1-16)
-OUT="/verif/build/ext/$H"
+ROOT="$(cd "$(dirname "$0")/.." && pwd)"
+OUT="$ROOT/build/ext/$H"
 TORCH=/venv/lib/python3.12/site-packages/torch
 EXT=$(/venv/bin/python -c "import sysconfig;print(sysconfig.get_config_var('EXT_SUFFIX'))")
 if [ ! -f "$OUT/tak_ext$EXT" ]; then
   mkdir -p "$OUT"
-  TMP=$(mktemp -d /verif/build/ext/tmp.XXXXXX)
+  TMP=$(mktemp -d "$ROOT/build/ext/tmp.XXXXXX")
   g++ -O2 -shared -fPIC -std=c++20 -DTORCH_EXTENSION_NAME=tak_ext -DTORCH_API_INCLUDE_EXTENSION_H \
     -I$TORCH/include -I$TORCH/include/torch/csrc/api/include \
     -I/root/.pyenv/versions/3.12.1/include/python3.12 \
